@@ -308,14 +308,17 @@ def _dense_scatter(mesh_groups, local, Ndof, dof_n):
     return K
 
 
-def _mixed_mesh():
-    """TRI3 + QUAD4 in one 2-D mesh sharing an edge (two groups of the main dimension)."""
+def _mixed_mesh(boundary=False):
+    """TRI3 + QUAD4 in one 2-D mesh sharing an edge (two groups of the main dimension); optionally with the SEG2 group of some boundary edges."""
     from EasyFEA.FEM._mesh import Mesh
     from EasyFEA.FEM._group_elem import GroupElemFactory
     from EasyFEA.FEM._utils import ElemType
     coord = np.array([[0, 0, 0], [1, 0, 0], [1, 1, 0], [0, 1, 0], [2, 0.5, 0], [2.2, 1.4, 0]], dtype=float)
     quad = GroupElemFactory.Create(ElemType.QUAD4, np.array([[0, 1, 2, 3]]), coord)
     tri = GroupElemFactory.Create(ElemType.TRI3, np.array([[1, 4, 2], [4, 5, 2]]), coord)
+    if boundary:
+        seg = GroupElemFactory.Create(ElemType.SEG2, np.array([[0, 1], [1, 4], [4, 5], [3, 0]]), coord)
+        return Mesh({ElemType.QUAD4: quad, ElemType.TRI3: tri, ElemType.SEG2: seg})
     return Mesh({ElemType.QUAD4: quad, ElemType.TRI3: tri})
 
 
@@ -325,6 +328,8 @@ def ob_scatter(case, seed):
     kind, et, dof_n, cplx, permute = case
     if kind == "mixed":
         mesh = _mixed_mesh()
+    elif kind == "boundary":
+        mesh = _mixed_mesh(boundary=True)
     else:
         coords, connect = patches.two_element_patch(et)
         con = np.array(connect)
@@ -339,9 +344,21 @@ def ob_scatter(case, seed):
     groups = mesh.Get_list_groupElem()
     state = {"round": 0}
 
+    def listed(simu):
+        gs = list(simu.mesh.Get_list_groupElem())
+        if kind != "boundary":
+            return gs
+        # a user subclass adding boundary (lower-dimension) groups to the system, listed before / after / between the bulk groups
+        segs = list(simu.mesh.Get_list_groupElem(1))
+        if et.startswith("order"):
+            # every listing order of the three groups; the order changes from one assembly to the next (et = "order<k>": k-th permutation first)
+            perms = list(itertools.permutations(gs + segs))
+            return list(perms[(int(et[5:]) + 2 * state["round"]) % len(perms)])
+        return {"segfirst": segs + gs, "bulkfirst": gs + segs, "interleaved": gs[:1] + segs + gs[1:]}[et]
+
     def local(simu):
         out = {}
-        for gi, g in enumerate(simu.mesh.Get_list_groupElem()):
+        for gi, g in enumerate(listed(simu)):
             m = g.nPe * dof_n
             def rnd(shape):
                 a = rng.integers(-9, 10, size=shape).astype(float)
@@ -349,7 +366,7 @@ def ob_scatter(case, seed):
                     a = a + 1j * rng.integers(-9, 10, size=shape)
                 return a
             K = rnd((g.Ne, m, m))
-            C = rnd((g.Ne, m, m)) if not (kind == "mixed" and gi == 1) else None     # a group contributing to only some slots
+            C = rnd((g.Ne, m, m)) if not ((kind == "mixed" and gi == 1) or (kind == "boundary" and g.dim == 1)) else None     # a group contributing to only some slots
             M = rnd((g.Ne, m, m)) if state["round"] != 1 else None                      # slot absent in one round -> other key
             Fv = rnd((g.Ne, m, 1))
             out[g] = (K, C, M, Fv)
@@ -400,7 +417,9 @@ def build(tier, seed):
                   clause="row-major slot key and slot table are 64-bit integers (no wrap-around for any Ndof < 2^31)"))
     obs.append(Ob("C03.slots", ob_slots, (), "P", (f"{SP}::_Simu.Assembly",), clause="K,C,M,F assembled from tuple positions 0..3, F as a vector"))
     cases = [("patch", "TRI3", 2, False, False), ("patch", "QUAD8", 1, False, True), ("patch", "TETRA4", 3, True, True),
-             ("mixed", "-", 2, False, False), ("mixed", "-", 1, True, False)]
+             ("mixed", "-", 2, False, False), ("mixed", "-", 1, True, False),
+             ("boundary", "segfirst", 2, False, False), ("boundary", "bulkfirst", 1, True, False), ("boundary", "interleaved", 3, False, False)]
+    cases += [("boundary", f"order{k}", 1 + k % 2, False, False) for k in range(6)]
     if tier == "thorough":
         cases += [("patch", et, dn, cx, True) for et in ("SEG3", "TRI6", "HEXA8", "PRISM6", "TETRA10") for dn in (1, 3) for cx in (False, True)]
     for cs in cases:
